@@ -569,7 +569,7 @@ func record(sec *vk.Section, c cronCase, out outcome) {
 // TestCronSettled: histories against the reference scheduler, exact after every step (FakeClock, so the clock can jump).
 func TestCronSettled(t *testing.T) {
 	sec := vk.Sec("CronSettled")
-	vk.Check(t, 15000, 500000, func(rt *rapid.T) {
+	vk.Check(t, 25000, 5000000, func(rt *rapid.T) {
 		c := genCase(rt)
 		out, err := runCron(t, c)
 		if err != nil {
